@@ -323,7 +323,7 @@ func c11Case(r *evid.Run, tier string, idx int, g *rng.R) {
 			ns, ok := ctx.Result().(xsel.NodeSet)
 			nodePath := "?"
 			if ok && len(ns) == 1 {
-				if a, in := w.m.ToA[ns[0]]; in {
+				if a, in := w.m.ToA[bridge.Canon(ns[0])]; in {
 					nodePath = a.Path()
 				}
 			} else if ok {
@@ -390,6 +390,24 @@ func c11Case(r *evid.Run, tier string, idx int, g *rng.R) {
 				r.Violate("function/unmarshal", map[string]any{"case": idx, "what": fmt.Sprintf("Unmarshal with the same bindings into struct{C []string `%s`; M float64 `%s`} gives len(C)=%v M=%v (%v); Exec gives %d nodes and %v", t.Field(0).Tag, t.Field(1).Tag, gotC, gotM, errStr(uerr), len(fset), marker), "document": d.Dump()})
 			}
 		}
+	}
+	// (c') the exported helper that resolves a QName against a binding map agrees with the
+	// resolution inside queries: bound prefix -> its URI, no prefix -> no namespace, unbound -> error
+	for p, u := range env1.ns {
+		for _, local := range []string{"x", "v", "a-1", "count"} {
+			got, err := xsel.GetQName(p+":"+local, env1.ns)
+			r.Eval(1)
+			r.Count("getqname_checks", 1)
+			if err != nil || got != (xsel.XmlName{Space: u, Local: local}) {
+				r.Violate("getqname", map[string]any{"case": idx, "what": fmt.Sprintf("GetQName(%q) under {%s} = %v (%v), expected {%s}%s", p+":"+local, env1.sig(), got, errStr(err), u, local)})
+			}
+		}
+	}
+	if got, err := xsel.GetQName("plain", env1.ns); err != nil || got != (xsel.XmlName{Local: "plain"}) {
+		r.Violate("getqname", map[string]any{"case": idx, "what": fmt.Sprintf("GetQName(\"plain\") = %v (%v), expected the no-namespace name", got, errStr(err))})
+	}
+	if got, err := xsel.GetQName("nope:x", env1.ns); err == nil {
+		r.Violate("getqname", map[string]any{"case": idx, "what": fmt.Sprintf("GetQName(\"nope:x\") = %v and no error although the prefix is unbound", got)})
 	}
 	// (d) unbound references must be errors when evaluated
 	someElem := xast.AnyT()
